@@ -21,9 +21,9 @@ static bool no_lifecycle() { for (int s = 0; s < VM_NS; ++s) if (g_enter_count[s
 
 // an arbitrary ACTIVATED instance satisfying the invariant
 #define ARBITRARY_ACTIVE(f) \
-  Instance f VM_CTOR; nd_configuration(f); VASSUME(inv_config(f)); VASSUME(spec_activated(f)); sync_monitor(f)
+  Instance f VM_CTOR; nd_configuration(f); VASSUME(inv_config(f)); VASSUME(spec_activated(f)); sync_monitor(f); VREACH("arbitrary activated pre-state satisfying the invariant")
 #define CONFIGURED(f, k) \
-  Instance f VM_CTOR; set_configuration(f, k); for (int c_ = 0; c_ < VM_NC; ++c_) f._core.registry.compoResumable[c_] = nd_u8(); VASSUME(inv_config(f)); sync_monitor(f)
+  Instance f VM_CTOR; set_configuration(f, k); for (int c_ = 0; c_ < VM_NC; ++c_) f._core.registry.compoResumable[c_] = nd_u8(); VASSUME(inv_config(f)); sync_monitor(f); VREACH("pre-state of the case key satisfying the invariant")
 
 static void post_invariant(const Instance& f) {
   VASSERT(C01, inv_config(f), "the configuration is well-formed after the step");
